@@ -2,7 +2,10 @@
 
 Case = (kind of input value, what the body does to it, initial value, worker, raise_errors).  The pool below has
 python tasks over list / dict / set / plain object / numpy array / nested containers / two list fields / file inputs
-(copy modes `any` and `copy`), whose body — selected by the INPUT `mode` — leaves the value alone, changes it in
+(copy modes `any` and `copy`) and over HASHABLE-BUT-MUTABLE values (instances of ordinary classes without / with `__eq__`,
+with `__slots__`, tuples and frozensets of tuples holding mutable members, `functools.partial` and bound methods holding
+a list, frozen dataclass / attrs instances with a list field, these nested in a list / dict and as one of two fields),
+whose body — selected by the INPUT `mode` — leaves the value alone, changes it in
 place, rebinds a local name, or changes it and restores it; plus shell tasks that append to their file argument under
 each copy mode (the only place where staging is in effect, see D63).
 
@@ -16,18 +19,23 @@ each copy mode (the only place where staging is in effect, see D63).
                              record), the result directory must carry the original checksum, and with copy mode `copy` the
                              original file must be untouched
   D63 match rule             python task, file-set field with copy_mode=copy, body writes to the path it received
+  D70 (fixed)                partial / bound-method inputs were hashed as a constant; the witness is a regression case now
 """
 
 from __future__ import annotations
 
 import copy
+import dataclasses
+import functools
 import logging
 import os
 import re
 import shutil
+import types
 import typing as ty
 from pathlib import Path
 
+import attrs
 from fileformats.generic import File
 
 from harness import core
@@ -52,7 +60,7 @@ META = {
     "note": "Trusted: Lean kernel; hand-written model HashCheck.lean; the real hash_function enters as the parameter `hash` "
     "(its own properties are C08's subject); fileformats' FileSet.copy honours the requested mode (C34); the harness-side "
     "replica of each body's effect.",
-    "rule": "case = (kind, mode, initial value, worker, raise_errors); distinct by canonical JSON; non-trivial = the body "
+    "rule": "case = (kind incl. hashable-but-mutable kinds, mode, initial value, worker, raise_errors); distinct by canonical JSON; non-trivial = the body "
     "touches its input (mutate / restore) or the worker is cf",
     "assumptions": [
         "field names of a task are distinct (attrs)",
@@ -69,6 +77,9 @@ OBLIGATIONS = [
         "C19_changed_exact",
         "C19_identity",
         "C19_value_changed",
+        "C19_skip_none",
+        "C19_skip_misses",
+        "C19_witness_skip",
         "C19_no_check_silent",
         "C19_reported",
         "C19_copy_mode",
@@ -97,8 +108,128 @@ class Box:
         return isinstance(o, Box) and (self.a, self.items) == (o.a, o.items)
 
 
+# hashable-but-mutable values: `isinstance(v, collections.abc.Hashable)` holds for every one of them, and every one can
+# be changed in place (so "hashable" must never be read as "immutable" by the post-run check)
+
+
+class Plain:
+    """ordinary class, no __eq__: identity hash"""
+
+    def __init__(self, a, items):
+        self.a = a
+        self.items = items
+
+
+class PlainEq(Plain):
+    """ordinary class with __eq__ and a __hash__ over part of its state"""
+
+    def __eq__(self, o):
+        return type(o) is type(self) and (self.a, self.items) == (o.a, o.items)
+
+    def __hash__(self):
+        return hash(self.a)
+
+
+class Slotted:
+    __slots__ = ("a", "items")
+
+    def __init__(self, a, items):
+        self.a = a
+        self.items = items
+
+
+@dataclasses.dataclass(frozen=True)
+class FrozenDC:
+    a: int
+    items: list
+
+
+@attrs.frozen
+class FrozenAttrs:
+    a: int
+    items: list
+
+
+class Holder:
+    def __init__(self, items):
+        self.items = items
+
+    def total(self, k=0):
+        return sum(self.items) + k
+
+
+def addall(items, k=0):
+    return sum(items) + k
+
+
+HM_KINDS = [
+    "plain", "plainitems", "plaineq", "slotted", "tuple", "tuple2", "fset", "partial", "bound", "fdc", "fattrs",
+    "inlist", "indict",
+]  # fmt: skip
+CALLABLE_KINDS = {"partial", "bound"}  # D70 (fixed): used to be hashed as a constant
+
+
+def make_hm(kind: str, val: dict):
+    """build the value of a hashable-but-mutable kind from its JSON-able description {"a": int, "items": [ints]}"""
+    a, items = val["a"], list(val["items"])
+    if kind in ("plain", "plainitems"):
+        return Plain(a, items)
+    if kind == "plaineq":
+        return PlainEq(a, items)
+    if kind == "slotted":
+        return Slotted(a, items)
+    if kind == "tuple":
+        return ("rec", items)
+    if kind == "tuple2":
+        return ("rec", ("in", items), a)
+    if kind == "fset":
+        return frozenset({("k", Plain(a, items)), ("j", a)})
+    if kind == "partial":
+        return functools.partial(addall, items, k=a)
+    if kind == "bound":
+        return Holder(items).total
+    if kind == "fdc":
+        return FrozenDC(a, items)
+    if kind == "fattrs":
+        return FrozenAttrs(a, items)
+    if kind == "inlist":
+        return [Plain(a, items), a]
+    if kind == "indict":
+        return {"k": ("rec", items), "n": a}
+    raise ValueError(kind)
+
+
+def hm_items(kind: str, v):
+    """the mutable list buried in a hashable-but-mutable value"""
+    if kind in ("plainitems", "fdc", "fattrs"):
+        return v.items
+    if kind == "tuple":
+        return v[1]
+    if kind == "tuple2":
+        return v[1][1]
+    if kind == "fset":
+        return next(e[1] for e in v if isinstance(e[1], Plain)).items
+    if kind == "partial":
+        return v.args[0]
+    if kind == "bound":
+        return v.__self__.items
+    if kind == "indict":
+        return v["k"][1]
+    raise ValueError(kind)
+
+
 def touch(kind: str, v, undo: bool = False):
     """the in-place change of the pool (and its inverse)"""
+    if kind in ("plain", "plaineq", "slotted"):
+        v.a += -1 if undo else 1
+        return
+    if kind == "inlist":
+        v[0].a += -1 if undo else 1
+        return
+    if kind in HM_KINDS:
+        l = hm_items(kind, v)
+        l.pop() if undo else l.append(77)
+        return
     if kind == "list":
         v.pop() if undo else v.append(99)
     elif kind == "dict":
@@ -181,6 +312,17 @@ def PTwo(a: list, b: list, mode: str, which: str) -> int:
 
 
 @python.define
+def PTwoHM(a: ty.Any, b: ty.Any, mode: str, which: str) -> int:
+    from harness.props.C19 import body
+
+    if "a" in which:
+        body("tuple", a, mode)
+    if "b" in which:
+        body("plain", b, mode)
+    return 1
+
+
+@python.define
 def PFile(f: File, mode: str) -> int:
     from harness.props.C19 import body
 
@@ -205,7 +347,7 @@ def shell_task(copy_mode: str):
     )
 
 
-KINDS = ["list", "dict", "set", "obj", "objlist", "ndarray", "nested", "two", "file", "filecopy", "shell"]
+KINDS = ["list", "dict", "set", "obj", "objlist", "ndarray", "nested", "two", "file", "filecopy", "shell"] + HM_KINDS + ["twohm"]
 MODES = ["none", "mutate", "rebind", "restore"]
 SHELL_MODES = ["copy", "any", "link", "hardlink"]
 FIELD_IDS = {"v": 0, "a": 0, "b": 1, "f": 0, "mode": 7, "kind": 8, "which": 8, "script": 9}
@@ -227,6 +369,10 @@ def gen_value(rng, kind):
         return [{"k": ints}, {"k": [1]}]
     if kind == "two":
         return [ints, [rng.randrange(50)]]
+    if kind in HM_KINDS:
+        return {"a": ints[0], "items": ints[1:] + [rng.randrange(50)]}
+    if kind == "twohm":
+        return [{"a": 0, "items": ints}, {"a": rng.randrange(50), "items": [1]}]
     return "".join(rng.choice("abcdef") for _ in range(rng.randint(1, 12)))  # file content
 
 
@@ -238,7 +384,7 @@ def gen_case(rng, worker=None) -> dict:
         c["mode"] = rng.choice(["none", "mutate"])
     else:
         c["mode"] = rng.choice(MODES if kind not in ("file", "filecopy") else ["none", "mutate", "mutate"])
-    if kind == "two":
+    if kind in ("two", "twohm"):
         c["which"] = rng.choice(["a", "b", "ab"])
     c["raise_errors"] = rng.choice([None, True]) if c["worker"] == "cf" else None
     return c
@@ -266,6 +412,12 @@ def build(case, sandbox: Path):
         return PObj(v=val, mode=mode, kind=kind), {"v": val}, None
     if kind == "two":
         return PTwo(a=val[0], b=val[1], mode=mode, which=case["which"]), {"a": val[0], "b": val[1]}, None
+    if kind in HM_KINDS:
+        v = make_hm(kind, val)
+        return PObj(v=v, mode=mode, kind=kind), {"v": v}, None
+    if kind == "twohm":
+        a, b = make_hm("tuple", val[0]), make_hm("plain", val[1])
+        return PTwoHM(a=a, b=b, mode=mode, which=case["which"]), {"a": a, "b": b}, None
     fp = sandbox / "in" / "input.txt"
     fp.parent.mkdir(parents=True, exist_ok=True)
     fp.write_text(val)
@@ -286,8 +438,18 @@ def freeze(x):
         return ["nd", x.tolist()]
     if isinstance(x, Box):
         return ["box", x.a, list(x.items)]
-    if isinstance(x, set):
-        return ["set", sorted(x)]
+    if isinstance(x, (set, frozenset)):
+        return ["set", sorted((freeze(e) for e in x), key=repr)]
+    if isinstance(x, (Plain, Slotted, FrozenDC, FrozenAttrs)):
+        return [type(x).__name__, x.a, list(x.items)]
+    if isinstance(x, functools.partial):
+        return ["partial", freeze(list(x.args)), freeze(dict(x.keywords))]
+    if isinstance(x, types.MethodType):
+        return ["method", x.__func__.__name__, list(x.__self__.items)]
+    if isinstance(x, (tuple, list)):
+        return [type(x).__name__] + [freeze(e) for e in x]
+    if isinstance(x, dict):
+        return {k: freeze(v) for k, v in x.items()}
     return copy.deepcopy(x)
 
 
@@ -372,6 +534,11 @@ def field_hashes(case, sandbox: Path, hash_function):
     elif kind == "two":
         both(0, val[0], "list", "a" in case["which"])
         both(1, val[1], "list", "b" in case["which"])
+    elif kind in HM_KINDS:
+        both(0, make_hm(kind, val), kind)
+    elif kind == "twohm":
+        both(0, make_hm("tuple", val[0]), "tuple", "a" in case["which"])
+        both(1, make_hm("plain", val[1]), "plain", "b" in case["which"])
     else:
         d = sandbox / "replica"
         d.mkdir(parents=True, exist_ok=True)
@@ -423,7 +590,7 @@ def model_obs(case, hashes, ans):
     if is_file:
         orig_changed = touched and ans[1]["orig_changed"]
     else:
-        orig_changed = same and any(h0 != h1 for _, h0, h1 in hashes)
+        orig_changed = same and touched
     return {
         "exc": "RuntimeError" if run["report"] == "raised" else None,
         "logged": run["report"] == "logged",
@@ -436,6 +603,12 @@ def model_obs(case, hashes, ans):
 
 def is_d60(case) -> bool:
     return case["kind"] == "filecopy" and case["mode"] == "mutate"
+
+
+def defect_of(case):
+    if is_d60(case):
+        return "D63"
+    return None
 
 
 def spec_ok_of(case, obs) -> tuple[bool, str]:
@@ -498,7 +671,7 @@ def run_cases(ctx, cases):
             model,
             ok,
             nontrivial=c["mode"] in ("mutate", "restore") or c["worker"] == "cf",
-            defect="D63" if is_d60(c) else None,
+            defect=defect_of(c),
             what=why or "hash check after the body",
         )
     return impls
@@ -506,7 +679,20 @@ def run_cases(ctx, cases):
 
 D63_WITNESS = {"kind": "filecopy", "value": "hello", "mode": "mutate", "worker": "debug", "raise_errors": None}
 
+D70_WITNESS = {"kind": "partial", "value": {"a": 1, "items": [1, 2]}, "mode": "mutate", "worker": "debug", "raise_errors": None}
+
 CORPUS = [
+    # hashable-but-mutable inputs (a post-run check that trusted `Hashable` to mean immutable missed exactly these)
+    {"kind": "plain", "value": {"a": 1, "items": [1, 2]}, "mode": "mutate", "worker": "debug", "raise_errors": None},
+    {"kind": "tuple", "value": {"a": 0, "items": [1, 2, 3]}, "mode": "mutate", "worker": "debug", "raise_errors": None},
+    {"kind": "plain", "value": {"a": 1, "items": [1, 2]}, "mode": "mutate", "worker": "cf", "raise_errors": None},
+    {"kind": "tuple", "value": {"a": 0, "items": [1, 2, 3]}, "mode": "mutate", "worker": "cf", "raise_errors": True},
+    {"kind": "slotted", "value": {"a": 1, "items": [1]}, "mode": "mutate", "worker": "debug", "raise_errors": None},
+    {"kind": "fset", "value": {"a": 1, "items": [1]}, "mode": "mutate", "worker": "debug", "raise_errors": None},
+    {"kind": "fdc", "value": {"a": 1, "items": [1]}, "mode": "mutate", "worker": "debug", "raise_errors": None},
+    {"kind": "fattrs", "value": {"a": 1, "items": [1]}, "mode": "restore", "worker": "debug", "raise_errors": None},
+    {"kind": "twohm", "value": [{"a": 0, "items": [1]}, {"a": 2, "items": [1]}], "mode": "mutate", "which": "b", "worker": "debug", "raise_errors": None},
+    {"kind": "bound", "value": {"a": 1, "items": [1, 2]}, "mode": "mutate", "worker": "debug", "raise_errors": None},
     {"kind": "list", "value": [1, 2, 3], "mode": "mutate", "worker": "debug", "raise_errors": None},
     {"kind": "list", "value": [1, 2, 3], "mode": "none", "worker": "debug", "raise_errors": None},
     {"kind": "two", "value": [[1], [2]], "mode": "mutate", "which": "b", "worker": "debug", "raise_errors": None},
@@ -523,17 +709,22 @@ CORPUS = [
 def correspondence(ctx):
     core.assert_repo_loaded()
     # known finding D63 first (its witness is case 0)
-    cases = [D63_WITNESS] + CORPUS
+    cases = [D63_WITNESS, D70_WITNESS] + CORPUS
+    # every hashable-but-mutable kind is changed in place at least once per run (debug worker; random values)
+    for k in HM_KINDS:
+        cases.append({"kind": k, "value": gen_value(ctx.rng, k), "mode": "mutate", "worker": "debug", "raise_errors": None})
     cases += [gen_case(ctx.rng, "debug") for _ in range(ctx.pick(50, 600))]
     cases += [gen_case(ctx.rng, "cf") for _ in range(ctx.pick(3, 30))]
     impls = run_cases(ctx, cases)
     obs = impls[0][0]
     if any(f["id"] == "D63" for f in ctx.known()):
         ctx.finding("D63", obs["orig_changed"] is True, f"python task, copy_mode=copy, body appends to its file argument -> {obs}")
+    # D70 (fixed: partial / bound-method serializers) — its witness is case 1 and must pass like any other case
+    ctx.extra["D70_regression_reported"] = bool(impls[1][0]["exc"] or impls[1][0]["logged"])
 
 
 def search(ctx):
-    run_cases(ctx, [D63_WITNESS] + CORPUS + [gen_case(ctx.rng, "debug") for _ in range(ctx.pick(200, 1500))])
+    run_cases(ctx, [D63_WITNESS, D70_WITNESS] + CORPUS + [gen_case(ctx.rng, "debug") for _ in range(ctx.pick(200, 1500))])
 
 
 def replay(ctx, rec):
